@@ -6,6 +6,7 @@ pub mod determinism;
 pub mod evalorder;
 pub mod generics;
 pub mod illtyped;
+pub mod inference;
 pub mod isolation;
 pub mod lattice;
 pub mod methods;
@@ -47,6 +48,7 @@ pub fn all() -> Vec<Box<dyn Family>> {
         Box::new(names::NamesFamily),
         Box::new(names::Encoders),
         Box::new(illtyped::IllTyped),
+        Box::new(inference::Inference),
         Box::new(sepcomp::SepComp),
         Box::new(isolation::Isolation),
         Box::new(determinism::Determinism),
